@@ -785,6 +785,11 @@ class ArrayType(DerivedDataType, metaclass=_ArrayReprMeta):
     ...
 
 
+def _is_bit_array(typ: Union[DataType, Type[DataType]]) -> bool:
+    # element types may be given as a class or as a (named) instance
+    return isinstance(typ, BitArrayType) or (isinstance(typ, type) and issubclass(typ, BitArrayType))
+
+
 def Array(
     length_: Union[USINT, UINT, UDINT, ULINT, int, None],
     element_type_: Union[DataType, Type[DataType]],
@@ -816,7 +821,7 @@ def Array(
                 _len = len(values)
 
             try:
-                if issubclass(cls.element_type, BitArrayType):
+                if _is_bit_array(cls.element_type):
                     chunk_size = cls.element_type.size * 8
                     _chunks = len(values) // chunk_size
                     # fixed-length arrays truncate over-long input like any other array
@@ -853,7 +858,7 @@ def Array(
                 stream = _as_stream(buffer)
                 if _length is None:
                     _val = cls._decode_all(stream)
-                    if issubclass(cls.element_type, BitArrayType):
+                    if _is_bit_array(cls.element_type):
                         return list(chain.from_iterable(_val))
                     return _val
 
@@ -864,7 +869,7 @@ def Array(
 
                 _val = [cls.element_type.decode(stream) for _ in range(_len)]
 
-                if issubclass(cls.element_type, BitArrayType):
+                if _is_bit_array(cls.element_type):
                     return list(chain.from_iterable(_val))
 
                 return _val
